@@ -6,6 +6,7 @@ package main
 // boundary values around 2^63, long fractions (the float64 path of ParseDuration) and every unit.
 
 import (
+	"fmt"
 	"strconv"
 	"strings"
 	"time"
@@ -143,6 +144,27 @@ func convStream(c *Ctx) {
 		default:
 			emit(genDur(r), "dur")
 		}
+	}
+	// strings.Fields(strings.ToLower(comment[2:])) — what the mage:import tag recognition sees of a comment — against
+	// Parse/Fields.lean (unicode.IsSpace, Fields, lower-casing over ASCII and Latin-1)
+	blanks := []string{" ", "  ", "\t", "\u00a0", "\u0085", "\u2003", "\u3000", "\v", "\f", "\r", " \t "}
+	wordsF := []string{"mage:import", "Mage:Import", "MAGE:IMPORT", "mage:imports", "mage", "import", "tl", "OPS", "X1", "Über", "ÉCLAIR", "a.b", "//", "*/", "mage:import,x", "é", "ß", "µ"}
+	for i := 0; i < c.N/6+20; i++ {
+		cm := []string{"//", "/*"}[r.Intn(2)]
+		if r.Chance(1, 2) {
+			cm += blanks[r.Intn(len(blanks))]
+		}
+		for k := 0; k < r.Intn(4); k++ {
+			cm += wordsF[r.Intn(len(wordsF))]
+			if r.Chance(5, 6) {
+				cm += blanks[r.Intn(len(blanks))]
+			}
+		}
+		fl := strings.Fields(strings.ToLower(cm[2:]))
+		if fl == nil {
+			fl = []string{}
+		}
+		c.Emit(J{"op": "conv.fields", "c": cm}, J{"fields": fl}, "fields", fmt.Sprintf("nf=%d", len(fl)))
 	}
 	// time.Duration.String against Strconv.durString, and the round trip mage relies on (-t d travels as MAGEFILE_TIMEOUT=d.String())
 	emitDur := func(d int64, kind string) {
